@@ -391,3 +391,444 @@ Proof.
         (conj gen_stripe_MrCubeCounts_table_base gen_stripe_NumArrCubeCounts_table_base)).
 Qed.
 Print Assumptions C02_gen_strand_table_base.
+
+(* ------------------------------------------------------------------------------------ *)
+(* CATEGORICAL ARRAYS (Spec/SurveyArray.v, Proofs/ArrayCountsProofs.v, ArrayBasesProofs.v).
+   Notation as in Props/C01.v: an array brings the dimensions S (items, class "ARR") and C
+   (categories, class "CAT"); [ca_slice l .. S k] is what the count class of partition k gets
+   for the response laid out as l.  [in_arr mi mc a i c] = gave the c-th valid category on the
+   i-th valid item; [ok_arr mi mc a i] = ELIGIBLE on item i = gave THAT item a non-missing
+   category (per item: a respondent valid on another item only does not count).
+   The property's definition, read for an array: in the direction that runs over the array's
+   ITEMS nothing can be added up, the respondents of the opposing element who are valid on that
+   particular item and in the cell are exactly the counted ones -- base = count (the code's
+   "bases are equal to counts"); in the direction that runs over the array's CATEGORIES the
+   base is "valid on that item"; over another variable X it is X's eligibility [ok_el]; the
+   table base is the base of the non-item direction. *)
+From CC Require Import Spec.SurveyArray Proofs.ArrayCountsProofs Proofs.ArrayBasesProofs.
+
+(* ARR x CAT: the array alone (L_SC) or partition k of a table variable X (L_XSC) *)
+Theorem C02_arr_x_cat_bases S l v w kw mi mc mw k sr sc i c :
+  cat_or_mr kw -> k < lay_nt l mi mc mw -> rows_items l -> i < nval mi -> c < nval mc ->
+  let V := ca_slice l v mi mc w kw mw S k in
+  row_bases_of V (nval mc) sc CArr CCat i c =x=
+    Fin (wsum S (fun r => lay_pop l kw mw (ans r w) k && ok_arr mi mc (ans r v) i)) /\
+  column_bases_of V (nval mi) sr CArr CCat i c =x=
+    Fin (wsum S (fun r => lay_pop l kw mw (ans r w) k && in_arr mi mc (ans r v) i c)) /\
+  table_bases_of V (nval mi) (nval mc) sr sc CArr CCat i c =x=
+    Fin (wsum S (fun r => lay_pop l kw mw (ans r w) k && ok_arr mi mc (ans r v) i)).
+Proof. exact (fun Hw Hk => arr_rows_bases S l v w kw mi mc mw k Hw Hk sr sc i c). Qed.
+Print Assumptions C02_arr_x_cat_bases.
+
+(* CAT x ARR: the same cubes with the two array dimensions exchanged (L_CS, L_XCS) *)
+Theorem C02_cat_x_arr_bases S l v w kw mi mc mw k sr sc c i :
+  cat_or_mr kw -> k < lay_nt l mi mc mw -> cols_items l -> c < nval mc -> i < nval mi ->
+  let V := ca_slice l v mi mc w kw mw S k in
+  row_bases_of V (nval mi) sc CCat CArr c i =x=
+    Fin (wsum S (fun r => lay_pop l kw mw (ans r w) k && in_arr mi mc (ans r v) i c)) /\
+  column_bases_of V (nval mc) sr CCat CArr c i =x=
+    Fin (wsum S (fun r => lay_pop l kw mw (ans r w) k && ok_arr mi mc (ans r v) i)) /\
+  table_bases_of V (nval mc) (nval mi) sr sc CCat CArr c i =x=
+    Fin (wsum S (fun r => lay_pop l kw mw (ans r w) k && ok_arr mi mc (ans r v) i)).
+Proof. exact (fun Hw Hk => arr_cols_bases S l v w kw mi mc mw k Hw Hk sr sc c i). Qed.
+Print Assumptions C02_cat_x_arr_bases.
+
+(* ARR x CAT and ARR x MR (C S X): table of category k, rows = items i, columns = elements j
+   of X.  Row base = gave category k on item i and eligible for j (MR: not missing on THAT
+   item); column base = members of j who gave category k on item i; table base = row base *)
+Theorem C02_arr_x_other_bases S v w kw mi mc mw k i j :
+  cat_or_mr kw -> k < nval mc -> i < nval mi -> j < nval mw ->
+  let V := ca_slice L_CSX v mi mc w kw mw S k in
+  row_bases_of V (nval mw) (List.length mrv) CArr (kcls kw) i j =x=
+    Fin (wsum S (fun r => in_arr mi mc (ans r v) i k && ok_el kw mw (ans r w) j)) /\
+  column_bases_of V (nval mi) (List.length mrv) CArr (kcls kw) i j =x=
+    Fin (wsum S (fun r => in_arr mi mc (ans r v) i k && in_el kw mw (ans r w) j)) /\
+  table_bases_of V (nval mi) (nval mw) (List.length mrv) (List.length mrv) CArr (kcls kw) i j =x=
+    Fin (wsum S (fun r => in_arr mi mc (ans r v) i k && ok_el kw mw (ans r w) j)).
+Proof. exact (fun Hw Hk => csx_bases S v w kw mi mc mw k Hw Hk i j). Qed.
+Print Assumptions C02_arr_x_other_bases.
+
+(* CAT x ARR and MR x ARR (C X S): the mirror image *)
+Theorem C02_other_x_arr_bases S v w kw mi mc mw k i j :
+  cat_or_mr kw -> k < nval mc -> i < nval mw -> j < nval mi ->
+  let V := ca_slice L_CXS v mi mc w kw mw S k in
+  row_bases_of V (nval mi) (List.length mrv) (kcls kw) CArr i j =x=
+    Fin (wsum S (fun r => in_arr mi mc (ans r v) j k && in_el kw mw (ans r w) i)) /\
+  column_bases_of V (nval mw) (List.length mrv) (kcls kw) CArr i j =x=
+    Fin (wsum S (fun r => in_arr mi mc (ans r v) j k && ok_el kw mw (ans r w) i)) /\
+  table_bases_of V (nval mw) (nval mi) (List.length mrv) (List.length mrv) (kcls kw) CArr i j =x=
+    Fin (wsum S (fun r => in_arr mi mc (ans r v) j k && ok_el kw mw (ans r w) i)).
+Proof. exact (fun Hw Hk => cxs_bases S v w kw mi mc mw k Hw Hk i j). Qed.
+Print Assumptions C02_other_x_arr_bases.
+
+(* the array's items are the table dimension (S C X / S X C): the Cat / MR class pairs of the
+   table of item k; eligibility on the array side is "valid on item k" *)
+Theorem C02_array_item_tables_bases S v w kw mi mc mw k c j :
+  cat_or_mr kw -> k < nval mi -> c < nval mc -> j < nval mw ->
+  (let V := ca_slice L_SCX v mi mc w kw mw S k in
+   row_bases_of V (nval mw) (List.length mrv) CCat (kcls kw) c j =x=
+     Fin (wsum S (fun r => in_arr mi mc (ans r v) k c && ok_el kw mw (ans r w) j)) /\
+   column_bases_of V (nval mc) (List.length mrv) CCat (kcls kw) c j =x=
+     Fin (wsum S (fun r => ok_arr mi mc (ans r v) k && in_el kw mw (ans r w) j)) /\
+   table_bases_of V (nval mc) (nval mw) (List.length mrv) (List.length mrv) CCat (kcls kw) c j =x=
+     Fin (wsum S (fun r => ok_arr mi mc (ans r v) k && ok_el kw mw (ans r w) j))) /\
+  (let V := ca_slice L_SXC v mi mc w kw mw S k in
+   row_bases_of V (nval mc) (List.length mrv) (kcls kw) CCat j c =x=
+     Fin (wsum S (fun r => in_el kw mw (ans r w) j && ok_arr mi mc (ans r v) k)) /\
+   column_bases_of V (nval mw) (List.length mrv) (kcls kw) CCat j c =x=
+     Fin (wsum S (fun r => ok_el kw mw (ans r w) j && in_arr mi mc (ans r v) k c)) /\
+   table_bases_of V (nval mw) (nval mc) (List.length mrv) (List.length mrv) (kcls kw) CCat j c =x=
+     Fin (wsum S (fun r => ok_el kw mw (ans r w) j && ok_arr mi mc (ans r v) k))).
+Proof.
+  exact (fun Hw Hk Hc Hj => conj (scx_bases S v w kw mi mc mw k c j Hw Hk Hc Hj)
+                                 (sxc_bases S v w kw mi mc mw k j c Hw Hk Hj Hc)).
+Qed.
+Print Assumptions C02_array_item_tables_bases.
+
+(* unweighted twins (head counts) for the two array families *)
+Theorem C02_arr_x_cat_unweighted_bases S l v w kw mi mc mw k sr sc i c :
+  cat_or_mr kw -> k < lay_nt l mi mc mw -> rows_items l -> i < nval mi -> c < nval mc ->
+  let V := ca_slice l v mi mc w kw mw (unit_weights S) k in
+  row_bases_of V (nval mc) sc CArr CCat i c =x=
+    Fin (inject_Z (Z.of_nat (List.length (filter
+          (fun r => lay_pop l kw mw (ans r w) k && ok_arr mi mc (ans r v) i) S)))) /\
+  column_bases_of V (nval mi) sr CArr CCat i c =x=
+    Fin (inject_Z (Z.of_nat (List.length (filter
+          (fun r => lay_pop l kw mw (ans r w) k && in_arr mi mc (ans r v) i c) S)))) /\
+  table_bases_of V (nval mi) (nval mc) sr sc CArr CCat i c =x=
+    Fin (inject_Z (Z.of_nat (List.length (filter
+          (fun r => lay_pop l kw mw (ans r w) k && ok_arr mi mc (ans r v) i) S)))).
+Proof. exact (arr_rows_bases_headcount S l v w kw mi mc mw k sr sc i c). Qed.
+Print Assumptions C02_arr_x_cat_unweighted_bases.
+
+Theorem C02_arr_x_other_unweighted_bases S v w kw mi mc mw k i j :
+  cat_or_mr kw -> k < nval mc -> i < nval mi -> j < nval mw ->
+  let V := ca_slice L_CSX v mi mc w kw mw (unit_weights S) k in
+  row_bases_of V (nval mw) (List.length mrv) CArr (kcls kw) i j =x=
+    Fin (inject_Z (Z.of_nat (List.length (filter
+          (fun r => in_arr mi mc (ans r v) i k && ok_el kw mw (ans r w) j) S)))) /\
+  column_bases_of V (nval mi) (List.length mrv) CArr (kcls kw) i j =x=
+    Fin (inject_Z (Z.of_nat (List.length (filter
+          (fun r => in_arr mi mc (ans r v) i k && in_el kw mw (ans r w) j) S)))) /\
+  table_bases_of V (nval mi) (nval mw) (List.length mrv) (List.length mrv) CArr (kcls kw) i j =x=
+    Fin (inject_Z (Z.of_nat (List.length (filter
+          (fun r => in_arr mi mc (ans r v) i k && ok_el kw mw (ans r w) j) S)))).
+Proof. exact (csx_bases_headcount S v w kw mi mc mw k i j). Qed.
+Print Assumptions C02_arr_x_other_unweighted_bases.
+
+(* a count never exceeds its bases (non-negative weights) *)
+Theorem C02_arr_x_cat_count_le_bases S l v w kw mi mc mw k sr sc i c :
+  wf_survey S -> cat_or_mr kw -> k < lay_nt l mi mc mw -> rows_items l -> i < nval mi -> c < nval mc ->
+  let V := ca_slice l v mi mc w kw mw S k in
+  exists n rb cb tb,
+    counts_of V CArr CCat i c =x= Fin n /\
+    row_bases_of V (nval mc) sc CArr CCat i c =x= Fin rb /\
+    column_bases_of V (nval mi) sr CArr CCat i c =x= Fin cb /\
+    table_bases_of V (nval mi) (nval mc) sr sc CArr CCat i c =x= Fin tb /\
+    (n <= rb)%Q /\ (n <= cb)%Q /\ (n <= tb)%Q.
+Proof. exact (arr_rows_count_le_bases S l v w kw mi mc mw k sr sc i c). Qed.
+Print Assumptions C02_arr_x_cat_count_le_bases.
+
+Theorem C02_cat_x_arr_count_le_bases S l v w kw mi mc mw k sr sc c i :
+  wf_survey S -> cat_or_mr kw -> k < lay_nt l mi mc mw -> cols_items l -> c < nval mc -> i < nval mi ->
+  let V := ca_slice l v mi mc w kw mw S k in
+  exists n rb cb tb,
+    counts_of V CCat CArr c i =x= Fin n /\
+    row_bases_of V (nval mi) sc CCat CArr c i =x= Fin rb /\
+    column_bases_of V (nval mc) sr CCat CArr c i =x= Fin cb /\
+    table_bases_of V (nval mc) (nval mi) sr sc CCat CArr c i =x= Fin tb /\
+    (n <= rb)%Q /\ (n <= cb)%Q /\ (n <= tb)%Q.
+Proof. exact (arr_cols_count_le_bases S l v w kw mi mc mw k sr sc c i). Qed.
+Print Assumptions C02_cat_x_arr_count_le_bases.
+
+Theorem C02_arr_x_other_count_le_bases S v w kw mi mc mw k i j :
+  wf_survey S -> cat_or_mr kw -> k < nval mc -> i < nval mi -> j < nval mw ->
+  let V := ca_slice L_CSX v mi mc w kw mw S k in
+  exists n rb cb tb,
+    counts_of V CArr (kcls kw) i j =x= Fin n /\
+    row_bases_of V (nval mw) (List.length mrv) CArr (kcls kw) i j =x= Fin rb /\
+    column_bases_of V (nval mi) (List.length mrv) CArr (kcls kw) i j =x= Fin cb /\
+    table_bases_of V (nval mi) (nval mw) (List.length mrv) (List.length mrv) CArr (kcls kw) i j =x= Fin tb /\
+    (n <= rb)%Q /\ (n <= cb)%Q /\ (n <= tb)%Q.
+Proof. exact (csx_count_le_bases S v w kw mi mc mw k i j). Qed.
+Print Assumptions C02_arr_x_other_count_le_bases.
+
+Theorem C02_other_x_arr_count_le_bases S v w kw mi mc mw k i j :
+  wf_survey S -> cat_or_mr kw -> k < nval mc -> i < nval mw -> j < nval mi ->
+  let V := ca_slice L_CXS v mi mc w kw mw S k in
+  exists n rb cb tb,
+    counts_of V (kcls kw) CArr i j =x= Fin n /\
+    row_bases_of V (nval mi) (List.length mrv) (kcls kw) CArr i j =x= Fin rb /\
+    column_bases_of V (nval mw) (List.length mrv) (kcls kw) CArr i j =x= Fin cb /\
+    table_bases_of V (nval mw) (nval mi) (List.length mrv) (List.length mrv) (kcls kw) CArr i j =x= Fin tb /\
+    (n <= rb)%Q /\ (n <= cb)%Q /\ (n <= tb)%Q.
+Proof. exact (cxs_count_le_bases S v w kw mi mc mw k i j). Qed.
+Print Assumptions C02_other_x_arr_count_le_bases.
+
+(* WHICH MARGINS EXIST across an array (any tensor): Arr x Cat has the rows margin (= rows
+   table base) only, Cat x Arr the columns margin only, Arr x Mr / Mr x Arr / Arr x Arr none;
+   never a scalar table base *)
+Theorem C02_array_margins_defined V nr nc sr sc :
+  (rows_base_of V nc CArr CCat = Some (ac_rows_base V nc) /\
+   rows_table_base_of V nr nc sr CArr CCat = Some (ac_rows_base V nc) /\
+   columns_base_of V nr CArr CCat = None /\ columns_table_base_of V nr nc sc CArr CCat = None /\
+   table_base_of V nr nc CArr CCat = None) /\
+  (columns_base_of V nr CCat CArr = Some (ca_columns_base V nr) /\
+   columns_table_base_of V nr nc sc CCat CArr = Some (ca_columns_base V nr) /\
+   rows_base_of V nc CCat CArr = None /\ rows_table_base_of V nr nc sr CCat CArr = None /\
+   table_base_of V nr nc CCat CArr = None) /\
+  (forall rc cc, (rc, cc) = (CArr, CMr) \/ (rc, cc) = (CMr, CArr) \/ (rc, cc) = (CArr, CArr) ->
+     rows_base_of V nc rc cc = None /\ columns_base_of V nr rc cc = None /\
+     rows_table_base_of V nr nc sr rc cc = None /\ columns_table_base_of V nr nc sc rc cc = None /\
+     table_base_of V nr nc rc cc = None).
+Proof. exact (arr_margins_defined V nr nc sr sc). Qed.
+Print Assumptions C02_array_margins_defined.
+
+(* ... and what the public API (cubepart.py) then hands out: the 2-D fall-backs wherever the
+   opposing dimension is not categorical; for Arr x Cat / Cat x Arr the table base is the one
+   existing margin, as a vector *)
+Theorem C02_array_public_margins ds data k so si :
+  slice_counts ds data k = Some so -> slice_info_of ds = Some si ->
+  let rc := cls_of (si_row si) in
+  let cc := cls_of (si_col si) in
+  so_table_base so = table_base_of (slice_tensor ds data si k) (nvalid (si_row si)) (nvalid (si_col si)) rc cc /\
+  (cc <> CCat -> public_rows_margin so = PMatrix (so_row_bases so)) /\
+  (rc <> CCat -> public_columns_margin so = PMatrix (so_column_bases so)) /\
+  (rc <> CCat -> cc <> CCat -> public_table_base so = PMatrix (so_table_bases so)) /\
+  (rc = CArr -> cc = CCat ->
+     exists vct, so_rows_base so = Some vct /\ public_rows_margin so = PVector vct /\
+                 public_table_base so = PVector vct) /\
+  (rc = CCat -> cc = CArr ->
+     exists vct, so_columns_base so = Some vct /\ public_columns_margin so = PVector vct /\
+                 public_table_base so = PVector vct).
+Proof. exact (arr_public_margins ds data k so si). Qed.
+Print Assumptions C02_array_public_margins.
+
+(* the survey-level value of the margins that exist: one number per item = valid on it *)
+Theorem C02_arr_x_cat_rows_margin S l v w kw mi mc mw k sr sc i :
+  cat_or_mr kw -> k < lay_nt l mi mc mw -> rows_items l -> i < nval mi ->
+  let V := ca_slice l v mi mc w kw mw S k in
+  exists f, rows_base_of V (nval mc) CArr CCat = Some f /\
+    rows_table_base_of V (nval mi) (nval mc) sr CArr CCat = Some f /\
+    f i =x= Fin (wsum S (fun r => lay_pop l kw mw (ans r w) k && ok_arr mi mc (ans r v) i)) /\
+    columns_base_of V (nval mi) CArr CCat = None /\
+    columns_table_base_of V (nval mi) (nval mc) sc CArr CCat = None /\
+    table_base_of V (nval mi) (nval mc) CArr CCat = None.
+Proof. exact (fun Hw Hk => arr_rows_margin S l v w kw mi mc mw k Hw Hk sr sc i). Qed.
+Print Assumptions C02_arr_x_cat_rows_margin.
+
+Theorem C02_cat_x_arr_columns_margin S l v w kw mi mc mw k sr sc i :
+  cat_or_mr kw -> k < lay_nt l mi mc mw -> cols_items l -> i < nval mi ->
+  let V := ca_slice l v mi mc w kw mw S k in
+  exists f, columns_base_of V (nval mc) CCat CArr = Some f /\
+    columns_table_base_of V (nval mc) (nval mi) sc CCat CArr = Some f /\
+    f i =x= Fin (wsum S (fun r => lay_pop l kw mw (ans r w) k && ok_arr mi mc (ans r v) i)) /\
+    rows_base_of V (nval mi) CCat CArr = None /\
+    rows_table_base_of V (nval mc) (nval mi) sr CCat CArr = None /\
+    table_base_of V (nval mc) (nval mi) CCat CArr = None.
+Proof. exact (fun Hw Hk => arr_cols_margin S l v w kw mi mc mw k Hw Hk sr sc i). Qed.
+Print Assumptions C02_cat_x_arr_columns_margin.
+
+(* table of category k against a CATEGORICAL X: per item, gave k on it and valid on X *)
+Theorem C02_arr_x_other_margins S v w mi mc mw k i :
+  k < nval mc -> i < nval mi ->
+  (let V := ca_slice L_CSX v mi mc w KCat mw S k in
+   exists f, rows_base_of V (nval mw) CArr CCat = Some f /\
+     rows_table_base_of V (nval mi) (nval mw) (List.length mrv) CArr CCat = Some f /\
+     f i =x= Fin (wsum S (fun r => in_arr mi mc (ans r v) i k && ok_cat mw (ans r w)))) /\
+  (let V := ca_slice L_CXS v mi mc w KCat mw S k in
+   exists f, columns_base_of V (nval mw) CCat CArr = Some f /\
+     columns_table_base_of V (nval mw) (nval mi) (List.length mrv) CCat CArr = Some f /\
+     f i =x= Fin (wsum S (fun r => in_arr mi mc (ans r v) i k && ok_cat mw (ans r w)))).
+Proof.
+  exact (fun Hk Hi => conj (csx_margin S v w mi mc mw k i Hk Hi) (cxs_margin S v w mi mc mw k i Hk Hi)).
+Qed.
+Print Assumptions C02_arr_x_other_margins.
+
+(* tables of item k: the margin across the array's categories always exists; the scalar
+   table base when X is categorical: valid on item k and on X *)
+Theorem C02_array_item_tables_margins S v w kw mi mc mw k j :
+  cat_or_mr kw -> k < nval mi -> j < nval mw ->
+  (exists f, columns_base_of (ca_slice L_SCX v mi mc w kw mw S k) (nval mc) CCat (kcls kw) = Some f /\
+     f j =x= Fin (wsum S (fun r => ok_arr mi mc (ans r v) k && in_el kw mw (ans r w) j))) /\
+  (exists f, rows_base_of (ca_slice L_SXC v mi mc w kw mw S k) (nval mc) (kcls kw) CCat = Some f /\
+     f j =x= Fin (wsum S (fun r => in_el kw mw (ans r w) j && ok_arr mi mc (ans r v) k))).
+Proof.
+  exact (fun Hw Hk Hj => conj (scx_columns_margin S v w kw mi mc mw k j Hw Hk Hj)
+                              (sxc_rows_margin S v w kw mi mc mw k j Hw Hk Hj)).
+Qed.
+Print Assumptions C02_array_item_tables_margins.
+
+Theorem C02_array_item_table_base_scalar S v w mi mc mw k :
+  k < nval mi ->
+  exists x, table_base_of (ca_slice L_SCX v mi mc w KCat mw S k) (nval mc) (nval mw) CCat CCat = Some x /\
+    x =x= Fin (wsum S (fun r => ok_arr mi mc (ans r v) k && ok_cat mw (ans r w))).
+Proof. exact (scx_table_base_scalar S v w mi mc mw k). Qed.
+Print Assumptions C02_array_item_table_base_scalar.
+
+(* ARR x ARR: see Props/C01.v (C01_arr_x_arr_counts_partial, C01_arr_x_arr_needs_four_dimensions):
+   no response of at most three dimensions reaches the class; for any slice tensor with the
+   two-array meaning all three bases equal the count (stated there with the counts). *)
+
+(* Non-vacuity: the survey of C01_array_example (2 items x 3 categories, the MIDDLE category
+   missing; respondent 2 gave the missing category on item 0, respondent 1 on item 1,
+   respondent 4 did not answer item 1 and is missing on MR item 0), cut by [slice_counts]:
+   (a) the array alone: row base = valid on the item (19/4, 27/4 -- NOT the same for both
+   items), column base = count, rows margin exists, no columns margin, no scalar;
+   (b) categories x items x MR, table of the last category: row base adds selected + other on
+   THAT MR item (13/2 for item 1), column base = count, no margin at all;
+   (c) categories x MR x items: the mirror image;
+   (d) categorical x items x categories, table 1. *)
+Example C02_array_example :
+  let S := [ mkResp [AArr [0; 2]; ACat 0; AMr [Sel; Oth]] (3 # 2);
+             mkResp [AArr [2; 1]; ACat 1; AMr [Sel; Mis]] 2;
+             mkResp [AArr [1; 2]; ACat 0; AMr [Oth; Sel]] 5;
+             mkResp [AArr [0; 0]; ACat 1; AMr [Sel; Sel]] (1 # 4);
+             mkResp [AArr [2];    ACat 2; AMr [Mis; Sel]] 1 ] in
+  let mi := [false; false] in
+  let mc := [false; true; false] in
+  let mwc := [false; false; true] in
+  let mwm := [false; false] in
+  let run l w kw mw k :=
+    let ds := lay_dims l mi mc kw mw in
+    option_map (fun so => (map (map xred) (so_row_bases so), map (map xred) (so_column_bases so),
+                           map (map xred) (so_table_bases so),
+                           option_map (map xred) (so_rows_base so),
+                           option_map (map xred) (so_columns_base so), so_table_base so))
+               (slice_counts ds (flatten (raw_shape ds) (ca_raw l 0 w kw S)) k) in
+  cat_or_mr KCat /\ cat_or_mr KMr /\ wf_survey S /\
+  nval mi = 2 /\ nval mc = 2 /\ nval mwc = 2 /\ nval mwm = 2 /\
+  rows_items L_SC /\ rows_items L_XSC /\ cols_items L_CS /\
+  0 < lay_nt L_SC mi mc mwc /\ 1 < lay_nt L_XSC mi mc mwc /\
+  run L_SC 1 KCat mwc 0 =
+    Some ([[Fin (19 # 4); Fin (19 # 4)]; [Fin (27 # 4); Fin (27 # 4)]],
+          [[Fin (7 # 4); Fin 3]; [Fin (1 # 4); Fin (13 # 2)]],
+          [[Fin (19 # 4); Fin (19 # 4)]; [Fin (27 # 4); Fin (27 # 4)]],
+          Some [Fin (19 # 4); Fin (27 # 4)], None, None) /\
+  run L_CSX 2 KMr mwm 1 =
+    Some ([[Fin 2; Fin 1]; [Fin (13 # 2); Fin (13 # 2)]],
+          [[Fin 2; Fin 1]; [Fin (3 # 2); Fin 5]],
+          [[Fin 2; Fin 1]; [Fin (13 # 2); Fin (13 # 2)]], None, None, None) /\
+  run L_CXS 2 KMr mwm 1 =
+    Some ([[Fin 2; Fin (3 # 2)]; [Fin 1; Fin 5]],
+          [[Fin 2; Fin (13 # 2)]; [Fin 1; Fin (13 # 2)]],
+          [[Fin 2; Fin (13 # 2)]; [Fin 1; Fin (13 # 2)]], None, None, None) /\
+  run L_XSC 1 KCat mwc 1 =
+    Some ([[Fin (9 # 4); Fin (9 # 4)]; [Fin (1 # 4); Fin (1 # 4)]],
+          [[Fin (1 # 4); Fin 2]; [Fin (1 # 4); Fin 0]],
+          [[Fin (9 # 4); Fin (9 # 4)]; [Fin (1 # 4); Fin (1 # 4)]],
+          Some [Fin (9 # 4); Fin (1 # 4)], None, None) /\
+  option_map (fun so => (public_columns_margin so, public_table_base so))
+             (slice_counts (lay_dims L_CSX mi mc KMr mwm)
+                (flatten (raw_shape (lay_dims L_CSX mi mc KMr mwm)) (ca_raw L_CSX 0 2 KMr S)) 1)
+    = option_map (fun so => (PMatrix (so_column_bases so), PMatrix (so_table_bases so)))
+             (slice_counts (lay_dims L_CSX mi mc KMr mwm)
+                (flatten (raw_shape (lay_dims L_CSX mi mc KMr mwm)) (ca_raw L_CSX 0 2 KMr S)) 1) /\
+  (wsum S (fun r => ok_arr mi mc (ans r 0) 0) == 19 # 4)%Q /\
+  (wsum S (fun r => ok_arr mi mc (ans r 0) 1) == 27 # 4)%Q /\
+  (wsum S (fun r => in_arr mi mc (ans r 0) 1 1 && ok_el KMr mwm (ans r 2) 0) == 13 # 2)%Q.
+Proof.
+  cbv zeta. repeat split; try (left; reflexivity); try (right; reflexivity);
+    try lia; try (repeat constructor; discriminate); try (vm_compute; reflexivity).
+Qed.
+
+(* COMPOSED, FROM THE FLAT PAYLOAD (Proofs/ArrayPayloadProofs.v): [ca_payload l ..] is the
+   row-major payload of the survey's cube laid out as l, [slice_counts] the function the
+   correspondence check evaluates on the JSON payload.  For every survey, every position of
+   missing items / categories, X categorical or MR and every partition k, each cell of the four
+   matrices it returns is the respondent-level number -- one theorem from the payload to the
+   survey, counts and bases together. *)
+From CC Require Import Proofs.ArrayPayloadProofs.
+
+(* ARR x CAT: the array alone (L_SC) or under a table variable (L_XSC) *)
+Theorem C02_arr_x_cat_from_payload S l v w kw mi mc mw k :
+  cat_or_mr kw -> k < lay_nt l mi mc mw -> rows_items l ->
+  exists so, slice_counts (lay_dims l mi mc kw mw) (ca_payload l v mi mc w kw mw S) k = Some so /\
+    forall i c, i < nval mi -> c < nval mc ->
+      mnth (so_counts so) i c =x=
+        Fin (wsum S (fun r => lay_pop l kw mw (ans r w) k && in_arr mi mc (ans r v) i c)) /\
+      mnth (so_row_bases so) i c =x=
+        Fin (wsum S (fun r => lay_pop l kw mw (ans r w) k && ok_arr mi mc (ans r v) i)) /\
+      mnth (so_column_bases so) i c =x=
+        Fin (wsum S (fun r => lay_pop l kw mw (ans r w) k && in_arr mi mc (ans r v) i c)) /\
+      mnth (so_table_bases so) i c =x=
+        Fin (wsum S (fun r => lay_pop l kw mw (ans r w) k && ok_arr mi mc (ans r v) i)).
+Proof. exact (arr_rows_from_payload S l v w kw mi mc mw k). Qed.
+Print Assumptions C02_arr_x_cat_from_payload.
+
+(* CAT x ARR (L_CS, L_XCS) *)
+Theorem C02_cat_x_arr_from_payload S l v w kw mi mc mw k :
+  cat_or_mr kw -> k < lay_nt l mi mc mw -> cols_items l ->
+  exists so, slice_counts (lay_dims l mi mc kw mw) (ca_payload l v mi mc w kw mw S) k = Some so /\
+    forall c i, c < nval mc -> i < nval mi ->
+      mnth (so_counts so) c i =x=
+        Fin (wsum S (fun r => lay_pop l kw mw (ans r w) k && in_arr mi mc (ans r v) i c)) /\
+      mnth (so_row_bases so) c i =x=
+        Fin (wsum S (fun r => lay_pop l kw mw (ans r w) k && in_arr mi mc (ans r v) i c)) /\
+      mnth (so_column_bases so) c i =x=
+        Fin (wsum S (fun r => lay_pop l kw mw (ans r w) k && ok_arr mi mc (ans r v) i)) /\
+      mnth (so_table_bases so) c i =x=
+        Fin (wsum S (fun r => lay_pop l kw mw (ans r w) k && ok_arr mi mc (ans r v) i)).
+Proof. exact (arr_cols_from_payload S l v w kw mi mc mw k). Qed.
+Print Assumptions C02_cat_x_arr_from_payload.
+
+(* ARR x CAT / ARR x MR: categories x items x X, the table of category k *)
+Theorem C02_arr_x_other_from_payload S v w kw mi mc mw k :
+  cat_or_mr kw -> k < nval mc ->
+  exists so, slice_counts (lay_dims L_CSX mi mc kw mw) (ca_payload L_CSX v mi mc w kw mw S) k = Some so /\
+    forall i j, i < nval mi -> j < nval mw ->
+      mnth (so_counts so) i j =x=
+        Fin (wsum S (fun r => in_arr mi mc (ans r v) i k && in_el kw mw (ans r w) j)) /\
+      mnth (so_row_bases so) i j =x=
+        Fin (wsum S (fun r => in_arr mi mc (ans r v) i k && ok_el kw mw (ans r w) j)) /\
+      mnth (so_column_bases so) i j =x=
+        Fin (wsum S (fun r => in_arr mi mc (ans r v) i k && in_el kw mw (ans r w) j)) /\
+      mnth (so_table_bases so) i j =x=
+        Fin (wsum S (fun r => in_arr mi mc (ans r v) i k && ok_el kw mw (ans r w) j)).
+Proof. exact (csx_from_payload S v w kw mi mc mw k). Qed.
+Print Assumptions C02_arr_x_other_from_payload.
+
+(* CAT x ARR / MR x ARR: categories x X x items *)
+Theorem C02_other_x_arr_from_payload S v w kw mi mc mw k :
+  cat_or_mr kw -> k < nval mc ->
+  exists so, slice_counts (lay_dims L_CXS mi mc kw mw) (ca_payload L_CXS v mi mc w kw mw S) k = Some so /\
+    forall i j, i < nval mw -> j < nval mi ->
+      mnth (so_counts so) i j =x=
+        Fin (wsum S (fun r => in_arr mi mc (ans r v) j k && in_el kw mw (ans r w) i)) /\
+      mnth (so_row_bases so) i j =x=
+        Fin (wsum S (fun r => in_arr mi mc (ans r v) j k && in_el kw mw (ans r w) i)) /\
+      mnth (so_column_bases so) i j =x=
+        Fin (wsum S (fun r => in_arr mi mc (ans r v) j k && ok_el kw mw (ans r w) i)) /\
+      mnth (so_table_bases so) i j =x=
+        Fin (wsum S (fun r => in_arr mi mc (ans r v) j k && ok_el kw mw (ans r w) i)).
+Proof. exact (cxs_from_payload S v w kw mi mc mw k). Qed.
+Print Assumptions C02_other_x_arr_from_payload.
+
+(* the tables of item k: items x categories x X and items x X x categories *)
+Theorem C02_array_item_tables_from_payload S v w kw mi mc mw k :
+  cat_or_mr kw -> k < nval mi ->
+  (exists so, slice_counts (lay_dims L_SCX mi mc kw mw) (ca_payload L_SCX v mi mc w kw mw S) k = Some so /\
+    forall c j, c < nval mc -> j < nval mw ->
+      mnth (so_counts so) c j =x=
+        Fin (wsum S (fun r => in_arr mi mc (ans r v) k c && in_el kw mw (ans r w) j)) /\
+      mnth (so_row_bases so) c j =x=
+        Fin (wsum S (fun r => in_arr mi mc (ans r v) k c && ok_el kw mw (ans r w) j)) /\
+      mnth (so_column_bases so) c j =x=
+        Fin (wsum S (fun r => ok_arr mi mc (ans r v) k && in_el kw mw (ans r w) j)) /\
+      mnth (so_table_bases so) c j =x=
+        Fin (wsum S (fun r => ok_arr mi mc (ans r v) k && ok_el kw mw (ans r w) j))) /\
+  (exists so, slice_counts (lay_dims L_SXC mi mc kw mw) (ca_payload L_SXC v mi mc w kw mw S) k = Some so /\
+    forall j c, j < nval mw -> c < nval mc ->
+      mnth (so_counts so) j c =x=
+        Fin (wsum S (fun r => in_el kw mw (ans r w) j && in_arr mi mc (ans r v) k c)) /\
+      mnth (so_row_bases so) j c =x=
+        Fin (wsum S (fun r => in_el kw mw (ans r w) j && ok_arr mi mc (ans r v) k)) /\
+      mnth (so_column_bases so) j c =x=
+        Fin (wsum S (fun r => ok_el kw mw (ans r w) j && in_arr mi mc (ans r v) k c)) /\
+      mnth (so_table_bases so) j c =x=
+        Fin (wsum S (fun r => ok_el kw mw (ans r w) j && ok_arr mi mc (ans r v) k))).
+Proof.
+  exact (fun Hw Hk => conj (scx_from_payload S v w kw mi mc mw k Hw Hk)
+                           (sxc_from_payload S v w kw mi mc mw k Hw Hk)).
+Qed.
+Print Assumptions C02_array_item_tables_from_payload.
